@@ -11,6 +11,8 @@ import (
 	"time"
 
 	"github.com/anishathalye/porcupine"
+
+	"verif/harness/internal/quiesce"
 	flyt "github.com/mark3labs/flyt"
 )
 
@@ -330,6 +332,34 @@ type LinCase struct {
 	Clients int     `json:"clients"`
 	History []LinOp `json:"history,omitempty"`
 	Big     []BigOp `json:"big,omitempty"` // large-store family
+	Wedged  bool    `json:"wedged,omitempty"` // the clients never finished: every goroutine of the process is parked on a lock (the store's)
+}
+
+// waitClientsOrWedged waits for the clients of a history. If they have not finished after 5 s and the whole process
+// (one history at a time per process) is blocked in two consecutive looks, the store is wedged: operations that never
+// complete have no place in any sequential order.
+func waitClientsOrWedged(wg *sync.WaitGroup) bool {
+	done := make(chan struct{})
+	go func() { wg.Wait(); close(done) }()
+	self := quiesce.Self()
+	for tries := 0; ; tries++ {
+		select {
+		case <-done:
+			return false
+		case <-time.After(5 * time.Second):
+		}
+		if sn, ok := quiesce.Wait(self, 3*time.Second, nil); ok && sn.Sleepers == 0 {
+			select {
+			case <-done:
+				return false
+			default:
+			}
+			return true
+		}
+		if tries > 20 {
+			return false // busy but not finishing: the caller's porcupine timeout / the driver's watchdog deal with that
+		}
+	}
 }
 
 // weights of the two operation mixes
@@ -462,8 +492,11 @@ func recordHistory(c *Cfg, idx int) *LinCase {
 			}
 		}(cl)
 	}
-	wg.Wait()
 	lc := &LinCase{Family: "history", Clients: clients}
+	if waitClientsOrWedged(&wg) {
+		lc.Wedged = true
+		return lc
+	}
 	for _, h := range hist {
 		lc.History = append(lc.History, h...)
 	}
@@ -520,6 +553,12 @@ func runC13(c *Cfg) {
 		}
 		if (i/16)%8 == 5 { // large-store family
 			lc := recordBigHistory(c, i)
+			if lc.Wedged {
+				r.Eval()
+				r.Violate("C13", "C13:store-wedged:large-store", fmt.Sprintf("%d clients ran operations on a large store concurrently and never finished: every goroutine is parked on a lock and nothing can release it — operations that never complete cannot be put into any sequential order", lc.Clients), lc)
+				r.Note("stopped shard after a wedged store (stuck goroutines left behind)")
+				return
+			}
 			res, ov := checkBigHistory(lc, 20*time.Second)
 			r.Eval()
 			r.Count("large_store.histories", 1)
@@ -542,6 +581,12 @@ func runC13(c *Cfg) {
 			continue
 		}
 		lc := recordHistory(c, i)
+		if lc.Wedged {
+			r.Eval()
+			r.Violate("C13", "C13:store-wedged", fmt.Sprintf("%d clients ran store operations concurrently and never finished: every goroutine is parked on a lock and nothing can release it (a reader and a writer wait for each other inside the store) — operations that never complete cannot be put into any sequential order", lc.Clients), lc)
+			r.Note("stopped shard after a wedged store (stuck goroutines left behind)")
+			return
+		}
 		res, ov, shape := checkHistory(lc, 20*time.Second)
 		r.Eval()
 		r.Count("operations", int64(len(lc.History)))
@@ -909,8 +954,11 @@ func recordBigHistory(c *Cfg, idx int) *LinCase {
 			}
 		}(cl)
 	}
-	wg.Wait()
 	lc := &LinCase{Family: "large-store", Clients: clients}
+	if waitClientsOrWedged(&wg) {
+		lc.Wedged = true
+		return lc
+	}
 	if prefilled { // the pre-fill as an operation that completed before everything else
 		lc.Big = append(lc.Big, BigOp{Client: clients, In: bigIn{Op: bigRefill}, Call: -2, Ret: -1})
 	}
